@@ -4,6 +4,15 @@
    scheduler_base.cpp (suspend, resume, select_active_pu), scheduling_loop.hpp (idle branch),
    local_priority_queue_scheduler.hpp (create_thread: select_active_pu + enqueue under the PU lock,
    get_next_thread: own queue first, stealing only while `running`).
+   Queues (thread_queue.hpp): every queue has a STAGED part (new_tasks_: task descriptions pushed by create_thread, run_now = false)
+   and a PENDING part (work_items_: runnable pika threads).  Only pending entries can be executed; staged entries are converted by
+   wait_or_add_new.  Queue w < nw is worker w's normal-priority queue (its high-priority queue behaves identically and is merged with
+   it); queue [lowq c] = nw is the single pool-wide low-priority queue.  As in local_priority_queue_scheduler:
+     get_next_thread(w, running): own pending; if own staged != 0 give up; if !running give up; steal PENDING of a victim (stealing
+       only); pop the low-priority PENDING queue (any running worker).
+     wait_or_add_new(w, running): convert own staged (WHATEVER running is); if !running return; steal STAGED of a victim into the own
+       pending queue (stealing only); worker nw-1 ONLY: convert the low-priority staged tasks.
+     get_queue_length(w) = own pending + own staged (+ low-priority pending + staged when w = nw-1).
    Every runtime_state constant and the "refusal is followed by return" facts come from
    Gen/GenRuntimeState.v (regenerated from the source on every run).
 
@@ -20,6 +29,8 @@ Definition task := (nat * nat)%type.           (* (submitting thread, its sequen
 Definition task_eqb (a b : task) : bool := Nat.eqb (fst a) (fst b) && Nat.eqb (snd a) (snd b).
 
 Record cfg := { nw : nat; elastic : bool; stealing : bool }.
+Definition lowq (c : cfg) : nat := nw c.                       (* index of the pool-wide low-priority queue *)
+Definition lastw (c : cfg) (w : nat) : bool := Nat.eqb (S w) (nw c).   (* num_thread == num_queues_ - 1 *)
 
 Inductive callkind := KSuspendPU | KResumePU | KSuspendPool | KResumePool.
 
@@ -30,7 +41,8 @@ Inductive api :=
 | AResumePU (w : nat)
 | ASuspendPool (self : bool)
 | AResumePool
-| ASubmit (hint : option nat).
+| ASubmit (hint : option nat)
+| ASubmitLow (hint : option nat).     (* thread_priority::low *)
 
 Inductive prim :=
 | PRefuse                           (* PIKA_THROWS_IF(ec, ...) with a non-throwing error_code: ec := error *)
@@ -42,7 +54,7 @@ Inductive prim :=
 | PNotify (w : nat)                 (* scheduler_base::resume(w) *)
 | PResumeLoop (w : nat)             (* yield_while({ resume(w); return state == g_res_wait; }) *)
 | PWaitIdle                         (* suspend_internal: yield_while(get_thread_count() > 0) *)
-| PSubmit (hint : option nat).      (* create_thread: pick queue, select_active_pu, enqueue, unlock *)
+| PSubmit (hint : option nat) (low : bool).   (* create_thread: pick queue, select_active_pu, enqueue (staged), unlock *)
 
 Definition spu_internal (w : nat) : list prim := [PLockedCas w; PWaitNot w g_sus_wait].
 
@@ -68,7 +80,8 @@ Definition expand (c : cfg) (a : api) : list prim :=
   | AResumePU w => [PLockedNop w; PResumeLoop w; PRet KResumePU]
   | ASuspendPool self => pool_suspend c self ++ [PRet KSuspendPool]
   | AResumePool => pool_resume c ++ [PRet KResumePool]
-  | ASubmit h => [PSubmit h]
+  | ASubmit h => [PSubmit h false]
+  | ASubmitLow h => [PSubmit h true]
   end.
 
 (* the decision function of the API: is the call refused? (compared with the observed error codes) *)
@@ -83,8 +96,8 @@ Definition refused (c : cfg) (a : api) : bool :=
 Record gst := {
   st : nat -> rstate;                 (* states_[w] *)
   pul : nat -> option nat;            (* pu_mtxs_[w]: holder *)
-  qs : list (nat * task);             (* all queues: (queue index, task) in enqueue order; queue w = entries with index w
-                                         (staged and pending tasks are not distinguished) *)
+  qs : list (nat * task);             (* PENDING parts (work_items_) of all queues: (queue index, task) in push order *)
+  sq : list (nat * task);             (* STAGED parts (new_tasks_) of all queues *)
   heldl : list (nat * task);          (* (worker, task popped and not yet executed) *)
   waiting : nat -> bool;              (* worker w is blocked in suspend_conds_[w].wait and not yet notified *)
   rr : nat;                           (* curr_queue_ *)
@@ -94,23 +107,21 @@ Record gst := {
   executed : list (task * nat);       (* (task, worker that ran it), newest first *)
   submitted : list task;              (* newest first *)
   fresh : nat -> list task;           (* tasks enqueued on queue w since worker w last saw it empty in the idle branch *)
-  calls : list (nat * callkind * bool)  (* (thread, call, error reported), newest first *)
+  calls : list (nat * callkind * bool);  (* (thread, call, error reported), newest first *)
+  validated : list task               (* normal-priority tasks enqueued under the PU lock of a worker accepted by select_active_pu with
+                                         the initial max_allowed_state (state <= suspended checked under that lock) *)
 }.
 
-Definition set_st g f := {| st := f; pul := pul g; qs := qs g; heldl := heldl g; waiting := waiting g; rr := rr g; live := live g;
-  nxt := nxt g; executed := executed g; submitted := submitted g; fresh := fresh g; calls := calls g |}.
-Definition set_pul g f := {| st := st g; pul := f; qs := qs g; heldl := heldl g; waiting := waiting g; rr := rr g; live := live g;
-  nxt := nxt g; executed := executed g; submitted := submitted g; fresh := fresh g; calls := calls g |}.
-Definition set_waiting g f := {| st := st g; pul := pul g; qs := qs g; heldl := heldl g; waiting := f; rr := rr g; live := live g;
-  nxt := nxt g; executed := executed g; submitted := submitted g; fresh := fresh g; calls := calls g |}.
-Definition set_rr g r := {| st := st g; pul := pul g; qs := qs g; heldl := heldl g; waiting := waiting g; rr := r; live := live g;
-  nxt := nxt g; executed := executed g; submitted := submitted g; fresh := fresh g; calls := calls g |}.
-Definition set_fresh g f := {| st := st g; pul := pul g; qs := qs g; heldl := heldl g; waiting := waiting g; rr := rr g; live := live g;
-  nxt := nxt g; executed := executed g; submitted := submitted g; fresh := f; calls := calls g |}.
-Definition set_calls g c := {| st := st g; pul := pul g; qs := qs g; heldl := heldl g; waiting := waiting g; rr := rr g; live := live g;
-  nxt := nxt g; executed := executed g; submitted := submitted g; fresh := fresh g; calls := c |}.
+Definition set_st g x := {| st := x; pul := pul g; qs := qs g; sq := sq g; heldl := heldl g; waiting := waiting g; rr := rr g; live := live g; nxt := nxt g; executed := executed g; submitted := submitted g; fresh := fresh g; calls := calls g; validated := validated g |}.
+Definition set_pul g x := {| st := st g; pul := x; qs := qs g; sq := sq g; heldl := heldl g; waiting := waiting g; rr := rr g; live := live g; nxt := nxt g; executed := executed g; submitted := submitted g; fresh := fresh g; calls := calls g; validated := validated g |}.
+Definition set_waiting g x := {| st := st g; pul := pul g; qs := qs g; sq := sq g; heldl := heldl g; waiting := x; rr := rr g; live := live g; nxt := nxt g; executed := executed g; submitted := submitted g; fresh := fresh g; calls := calls g; validated := validated g |}.
+Definition set_rr g x := {| st := st g; pul := pul g; qs := qs g; sq := sq g; heldl := heldl g; waiting := waiting g; rr := x; live := live g; nxt := nxt g; executed := executed g; submitted := submitted g; fresh := fresh g; calls := calls g; validated := validated g |}.
+Definition set_fresh g x := {| st := st g; pul := pul g; qs := qs g; sq := sq g; heldl := heldl g; waiting := waiting g; rr := rr g; live := live g; nxt := nxt g; executed := executed g; submitted := submitted g; fresh := x; calls := calls g; validated := validated g |}.
+Definition set_calls g x := {| st := st g; pul := pul g; qs := qs g; sq := sq g; heldl := heldl g; waiting := waiting g; rr := rr g; live := live g; nxt := nxt g; executed := executed g; submitted := submitted g; fresh := fresh g; calls := x; validated := validated g |}.
 
 Definition cas (s from to : rstate) : rstate := if rs_eqb s from then to else s.
+
+Definition nonempty {A : Type} (l : list A) : bool := match l with [] => false | _ :: _ => true end.
 
 Definition qof (w : nat) (l : list (nat * task)) : list task :=
   map snd (filter (fun e => Nat.eqb (fst e) w) l).
@@ -123,36 +134,54 @@ Fixpoint extract (w : nat) (l : list (nat * task)) : option (task * list (nat * 
               else match extract w r with Some (tk, r') => Some (tk, e :: r') | None => None end
   end.
 
-(* queue push: create_thread under (or, without elasticity, without) the PU lock *)
-Definition enqueue (g : gst) (t i : nat) : gst :=
+(* thread_queue::create_thread (run_now = false): push a task description on the STAGED part of queue q, under (or, without
+   elasticity, without) the PU lock of the selected worker; v: the selection was validated (ghost) *)
+Definition enqueue (g : gst) (t q : nat) (v : bool) : gst :=
   let tk := (t, nxt g t) in
-  {| st := st g; pul := pul g; qs := qs g ++ [(i, tk)]; heldl := heldl g; waiting := waiting g; rr := rr g; live := S (live g);
-     nxt := upd (nxt g) t (S (nxt g t)); executed := executed g; submitted := tk :: submitted g;
-     fresh := upd (fresh g) i (fresh g i ++ [tk]); calls := calls g |}.
+  {| st := st g; pul := pul g; qs := qs g; sq := sq g ++ [(q, tk)]; heldl := heldl g; waiting := waiting g; rr := rr g; live := S (live g); nxt := upd (nxt g) t (S (nxt g t)); executed := executed g; submitted := tk :: submitted g; fresh := upd (fresh g) q (fresh g q ++ [tk]); calls := calls g; validated := if v then tk :: validated g else validated g |}.
 
-(* worker w takes a task out of queue v *)
+(* worker w takes a task out of the PENDING part of queue v *)
 Definition take (g : gst) (w v : nat) : option gst :=
   match extract v (qs g) with
-  | Some (tk, r) => Some {| st := st g; pul := pul g; qs := r; heldl := (w, tk) :: heldl g; waiting := waiting g; rr := rr g;
-                            live := live g; nxt := nxt g; executed := executed g; submitted := submitted g; fresh := fresh g;
-                            calls := calls g |}
+  | Some (tk, r) => Some {| st := st g; pul := pul g; qs := r; sq := sq g; heldl := (w, tk) :: heldl g; waiting := waiting g; rr := rr g; live := live g; nxt := nxt g; executed := executed g; submitted := submitted g; fresh := fresh g; calls := calls g; validated := validated g |}
   | None => None
+  end.
+
+(* thread_queue::add_new: one staged entry of queue src becomes a pending entry of queue dst *)
+Definition move1 (g : gst) (dst src : nat) : option gst :=
+  match extract src (sq g) with
+  | Some (tk, r) => Some {| st := st g; pul := pul g; qs := qs g ++ [(dst, tk)]; sq := r; heldl := heldl g; waiting := waiting g; rr := rr g; live := live g; nxt := nxt g; executed := executed g; submitted := submitted g; fresh := fresh g; calls := calls g; validated := validated g |}
+  | None => None
+  end.
+
+(* ... a batch of at most n of them (add_count), in one critical section of the queue mutex *)
+Fixpoint moven (n : nat) (g : gst) (dst src : nat) : gst :=
+  match n with
+  | O => g
+  | S k => match move1 g dst src with Some g' => moven k g' dst src | None => g end
   end.
 
 Definition exec (g : gst) (w : nat) : gst :=
   match extract w (heldl g) with
-  | Some (tk, r) => {| st := st g; pul := pul g; qs := qs g; heldl := r; waiting := waiting g; rr := rr g; live := pred (live g);
-                       nxt := nxt g; executed := (tk, w) :: executed g; submitted := submitted g; fresh := fresh g;
-                       calls := calls g |}
+  | Some (tk, r) => {| st := st g; pul := pul g; qs := qs g; sq := sq g; heldl := r; waiting := waiting g; rr := rr g; live := pred (live g); nxt := nxt g; executed := (tk, w) :: executed g; submitted := submitted g; fresh := fresh g; calls := calls g; validated := validated g |}
   | None => g
   end.
+
+(* the tasks get_queue_length(w) counts *)
+Definition qlen_tasks (c : cfg) (w : nat) (g : gst) : list task :=
+  qof w (qs g) ++ qof w (sq g) ++ (if lastw c w then qof (lowq c) (qs g) ++ qof (lowq c) (sq g) else []).
 
 (* ---- thread-local state ---- *)
 Inductive wpc :=
 | WTop                      (* loop head: running := state < g_running_below *)
-| WPop (r : bool)           (* get_next_thread: own queue; other queues only when running and stealing *)
+| WPop (r : bool)           (* get_next_thread: own pending queue; own staged != 0 -> give up; !running -> give up *)
+| WSteal                    (* running: steal a PENDING task of a victim (stealing only) *)
+| WLowPop                   (* running: low_priority_queue_.get_next_thread (pending part) *)
 | WExec                     (* run the task *)
-| WIdle (r : bool)          (* idle branch: can_exit := !running && queue length == 0 *)
+| WAdd (r : bool)           (* wait_or_add_new: convert own staged tasks (whatever running is); !running -> return *)
+| WAddSteal                 (* running: convert STAGED tasks of a victim into the own pending queue (stealing only) *)
+| WAddLow                   (* running, LAST worker only: convert the staged low-priority tasks *)
+| WIdle (r : bool)          (* idle branch: can_exit := !running && get_queue_length(w) == 0 *)
 | WCheck (ce : bool)        (* if (state == g_sleep_if) { if (can_exit) suspend(); } *)
 | WStore                    (* scheduler_base::suspend: states_[w].store(g_sleep_store) *)
 | WEnterWait                (* lock suspend_mtxs_[w]; suspend_conds_[w].wait *)
@@ -166,11 +195,12 @@ Inductive phase :=
 | PhSelB (s k cnt : nat) (m : rstate)               (* probe k: unlocked re-read for num_allowed_threads *)
 | PhEnq (w : nat).                                  (* enqueue without a lock (no elasticity / gave up) *)
 
-Record client := { todo : list prim; ph : phase; err : bool }.
+(* vl (ghost): the PU lock now held was taken by select_active_pu with the initial max_allowed_state *)
+Record client := { todo : list prim; ph : phase; err : bool; vl : bool }.
 
 Inductive lstate := LWorker (pc : wpc) | LClient (cl : client) | LNone.
 
-Definition oracle := (bool * nat)%type.     (* (try_lock contention / spurious wake-up, victim choice) *)
+Definition oracle := (bool * nat)%type.     (* (try_lock contention / spurious wake-up, victim choice and batch size) *)
 
 Definition escalate (m : rstate) : option rstate :=
   if rs_le m g_sel_esc1_if then Some g_sel_esc1
@@ -179,23 +209,42 @@ Definition escalate (m : rstate) : option rstate :=
 Definition sleepy (pc : wpc) : bool :=
   match pc with WCheck true | WStore | WEnterWait | WWaiting | WWoken => true | _ => false end.
 
+Definition victim (c : cfg) (o : oracle) : nat := Nat.modulo (snd o) (nw c).
+Definition batch (c : cfg) (o : oracle) : nat := S (Nat.div (snd o) (nw c)).
+
+Definition reset_fresh (c : cfg) (w : nat) (g : gst) : gst :=
+  let f1 := upd (fresh g) w [] in
+  set_fresh g (if lastw c w then upd f1 (lowq c) [] else f1).
+
 Definition worker_step (c : cfg) (o : oracle) (w : nat) (g : gst) (pc : wpc) : gst * wpc :=
   match pc with
   | WTop => (g, WPop (rs_lt (st g w) g_running_below))
   | WPop r =>
       match take g w w with
       | Some g' => (g', WExec)
-      | None =>
-          if r && stealing c then
-            let v := Nat.modulo (snd o) (nw c) in
-            if Nat.eqb v w then (g, WIdle r)
-            else match take g w v with Some g' => (g', WExec) | None => (g, WIdle r) end
-          else (g, WIdle r)
+      | None => if nonempty (qof w (sq g)) then (g, WAdd r) else if r then (g, WSteal) else (g, WAdd r)
       end
+  | WSteal =>
+      if stealing c then
+        if Nat.eqb (victim c o) w then (g, WLowPop)
+        else match take g w (victim c o) with Some g' => (g', WExec) | None => (g, WLowPop) end
+      else (g, WLowPop)
+  | WLowPop => match take g w (lowq c) with Some g' => (g', WExec) | None => (g, WAdd true) end
   | WExec => (exec g w, WTop)
+  | WAdd r =>
+      if nonempty (qof w (sq g)) && negb (fst o) then (moven (batch c o) g w w, WTop)
+      else if r then (g, WAddSteal) else (g, WIdle false)
+  | WAddSteal =>
+      if stealing c && negb (Nat.eqb (victim c o) w) && negb (fst o) && nonempty (qof (victim c o) (sq g))
+      then (moven (batch c o) g w (victim c o), WTop)
+      else (g, WAddLow)
+  | WAddLow =>
+      if lastw c w && negb (fst o) && nonempty (qof (lowq c) (sq g))
+      then (moven (batch c o) g (lowq c) (lowq c), WTop)
+      else (g, WIdle true)
   | WIdle r =>
-      match qof w (qs g) with
-      | [] => if r then (g, WCheck false) else (set_fresh g (upd (fresh g) w []), WCheck true)
+      match qlen_tasks c w g with
+      | [] => if r then (g, WCheck false) else (reset_fresh c w g, WCheck true)
       | _ :: _ => (g, WCheck false)
       end
   | WCheck ce => if rs_eqb (st g w) g_sleep_if then (if ce then (g, WStore) else (g, WTop)) else (g, WTop)
@@ -208,16 +257,17 @@ Definition worker_step (c : cfg) (o : oracle) (w : nat) (g : gst) (pc : wpc) : g
 Definition notify (g : gst) (w : nat) : gst :=
   if g_resume_notifies then set_waiting g (upd (waiting g) w false) else g.
 
-Definition cl_next (cl : client) : client := {| todo := tl (todo cl); ph := Ph0; err := err cl |}.
-Definition cl_ph (cl : client) (p : phase) : client := {| todo := todo cl; ph := p; err := err cl |}.
+Definition cl_next (cl : client) : client := {| todo := tl (todo cl); ph := Ph0; err := err cl; vl := false |}.
+Definition cl_ph (cl : client) (p : phase) : client := {| todo := todo cl; ph := p; err := err cl; vl := false |}.
+Definition cl_sel (cl : client) (i : nat) (v : bool) : client := {| todo := todo cl; ph := PhHold i; err := err cl; vl := v |}.
 
 Definition client_step (c : cfg) (o : oracle) (t : nat) (g : gst) (cl : client) : gst * client :=
   match todo cl with
   | [] => (g, cl)
   | p :: rest =>
     match p with
-    | PRefuse => (g, {| todo := rest; ph := Ph0; err := true |})
-    | PRet k => (set_calls g ((t, k, err cl) :: calls g), {| todo := rest; ph := Ph0; err := false |})
+    | PRefuse => (g, {| todo := rest; ph := Ph0; err := true; vl := false |})
+    | PRet k => (set_calls g ((t, k, err cl) :: calls g), {| todo := rest; ph := Ph0; err := false; vl := false |})
     | PLockedCas w =>
         match ph cl with
         | PhHold _ => (set_pul (set_st g (upd (st g) w (cas (st g w) g_sus_from g_sus_to))) (upd (pul g) w None), cl_next cl)
@@ -239,7 +289,7 @@ Definition client_step (c : cfg) (o : oracle) (t : nat) (g : gst) (cl : client) 
     | PNotify w => (notify g w, cl_next cl)
     | PResumeLoop w => if rs_eqb (st g w) g_res_wait then (notify g w, cl) else (notify g w, cl_next cl)
     | PWaitIdle => match live g with O => (g, cl_next cl) | S _ => (g, cl) end
-    | PSubmit h =>
+    | PSubmit h low =>
         match ph cl with
         | Ph0 =>
             let '(s, g1) := match h with
@@ -251,7 +301,7 @@ Definition client_step (c : cfg) (o : oracle) (t : nat) (g : gst) (cl : client) 
             let i := Nat.modulo (s + k) (nw c) in
             match pul g i with
             | None => if negb (fst o) && rs_le (st g i) m
-                      then (set_pul g (upd (pul g) i (Some t)), cl_ph cl (PhHold i))
+                      then (set_pul g (upd (pul g) i (Some t)), cl_sel cl i (rs_eqb m g_sel_init))
                       else (g, cl_ph cl (PhSelB s k cnt m))
             | Some _ => (g, cl_ph cl (PhSelB s k cnt m))
             end
@@ -266,8 +316,8 @@ Definition client_step (c : cfg) (o : oracle) (t : nat) (g : gst) (cl : client) 
                         end
                  | S _ => (g, cl_ph cl (PhSelA s 0 0 m))
                  end
-        | PhHold i => (set_pul (enqueue g t i) (upd (pul g) i None), cl_next cl)
-        | PhEnq i => (enqueue g t i, cl_next cl)
+        | PhHold i => (set_pul (enqueue g t (if low then lowq c else i) (vl cl && negb low)) (upd (pul g) i None), cl_next cl)
+        | PhEnq i => (enqueue g t (if low then lowq c else i) false, cl_next cl)
         end
     end
   end.
@@ -280,32 +330,50 @@ Definition sr_tstep (c : cfg) (o : oracle) (t : nat) (g : gst) (l : lstate) : gs
   end.
 
 Definition sr_g0 : gst :=
-  {| st := fun _ => rs_running; pul := fun _ => None; qs := []; heldl := []; waiting := fun _ => false; rr := 0; live := 0;
-     nxt := fun _ => 0; executed := []; submitted := []; fresh := fun _ => []; calls := [] |}.
+  {| st := fun _ => rs_running; pul := fun _ => None; qs := []; sq := []; heldl := []; waiting := fun _ => false; rr := 0; live := 0;
+     nxt := fun _ => 0; executed := []; submitted := []; fresh := fun _ => []; calls := []; validated := [] |}.
 
 Definition sr_locals (c : cfg) (progs : nat -> list api) : nat -> lstate :=
   fun t => if Nat.ltb t (nw c) then LWorker WTop
-           else LClient {| todo := flat_map (expand c) (progs t); ph := Ph0; err := false |}.
+           else LClient {| todo := flat_map (expand c) (progs t); ph := Ph0; err := false; vl := false |}.
 
 Definition sr_run (c : cfg) (progs : nat -> list api) (sched : list (nat * oracle)) : gst * (nat -> lstate) :=
   run (sr_tstep c) sched (sr_g0, sr_locals c progs).
 
-(* ---- enabledness: can the thread make a step that is not idle spinning / blocked waiting? ---- *)
-Definition any_queue_nonempty (g : gst) : bool := match qs g with [] => false | _ => true end.
+(* ---- enabledness: can the thread make a step that is not idle spinning / blocked waiting? ----
+   A worker in its polling cycle is enabled iff the cycle can change the shared state:
+     own_work   its own pending/staged queue is not empty (popped / converted whatever `running` is);
+     can_sleep  it is not running any more (told to sleep) and get_queue_length(w) == 0 (can_exit);
+     run_work   it is running (or still believes so: [stale]) and there is something a running worker may take:
+                pending/staged tasks of other workers (stealing only), pending low-priority tasks, staged low-priority tasks
+                (LAST worker only). *)
+Definition has_normal (c : cfg) (l : list (nat * task)) : bool := existsb (fun e => Nat.ltb (fst e) (nw c)) l.
+Definition own_work (w : nat) (g : gst) : bool := nonempty (qof w (qs g)) || nonempty (qof w (sq g)).
+Definition steal_p (c : cfg) (g : gst) : bool := stealing c && has_normal c (qs g).
+Definition steal_s (c : cfg) (g : gst) : bool := stealing c && has_normal c (sq g).
+Definition low_p (c : cfg) (g : gst) : bool := nonempty (qof (lowq c) (qs g)).
+Definition low_s (c : cfg) (w : nat) (g : gst) : bool := lastw c w && nonempty (qof (lowq c) (sq g)).
+Definition run_work (c : cfg) (w : nat) (g : gst) : bool := steal_p c g || steal_s c g || low_p c g || low_s c w g.
+(* can_exit of the next iteration: !running && get_queue_length(w) == 0 *)
+Definition can_sleep (c : cfg) (w : nat) (g : gst) : bool := negb (rs_lt (st g w) g_running_below) && negb (nonempty (qlen_tasks c w g)).
+
+(* what the rest of the current iteration can still do on the strength of an old `running = true` / `can_exit = true` *)
+Definition stale (c : cfg) (w : nat) (g : gst) (pc : wpc) : bool :=
+  match pc with
+  | WPop true | WSteal => run_work c w g
+  | WLowPop => steal_s c g || low_p c g || low_s c w g
+  | WAdd true | WAddSteal => steal_s c g || low_s c w g
+  | WAddLow => low_s c w g
+  | WPop false | WAdd false | WIdle false => negb (nonempty (qlen_tasks c w g))   (* leads to the ghost reset of [fresh] *)
+  | WCheck true => rs_eqb (st g w) g_sleep_if
+  | _ => false
+  end.
 
 Definition worker_enabled (c : cfg) (w : nat) (g : gst) (pc : wpc) : bool :=
   match pc with
-  | WTop | WIdle _ | WCheck _ =>
-      (* the polling cycle: productive iff there is something to pop, or the worker has been told to sleep *)
-      negb (match qof w (qs g) with [] => true | _ => false end)
-      || rs_eqb (st g w) g_sleep_if
-      || (stealing c && rs_lt (st g w) g_running_below && any_queue_nonempty g)
-  | WPop r =>
-      negb (match qof w (qs g) with [] => true | _ => false end)
-      || rs_eqb (st g w) g_sleep_if
-      || (stealing c && (r || rs_lt (st g w) g_running_below) && any_queue_nonempty g)
   | WWaiting => negb (waiting g w)
   | WExec | WStore | WEnterWait | WWoken => true
+  | _ => own_work w g || can_sleep c w g || (rs_lt (st g w) g_running_below && run_work c w g) || stale c w g pc
   end.
 
 Definition client_enabled (c : cfg) (g : gst) (cl : client) : bool :=
@@ -335,3 +403,10 @@ Definition client_done (l : lstate) : bool :=
 (* a pool-suspend waiting for the pool to drain *)
 Definition at_wait_idle (l : lstate) : bool :=
   match l with LClient cl => match todo cl with PWaitIdle :: _ => true | _ => false end | _ => false end.
+
+(* a processing-unit suspend of worker w spinning in yield_while(state == pre_sleep) *)
+Definition at_wait_sleep (w : nat) (l : lstate) : bool :=
+  match l with
+  | LClient cl => match todo cl with PWaitNot w' s :: _ => Nat.eqb w' w && rs_eqb s g_sus_wait | _ => false end
+  | _ => false
+  end.
